@@ -91,6 +91,14 @@ func (w *World) StartScheduler() {
 	w.sched = &sched{w: w, back: make(chan struct{}), chans: map[uintptr]*chanState{}, KeepBias: 6}
 }
 
+// StopScheduler tears the tasks down and returns the world to plain sequential execution.
+func (w *World) StopScheduler() {
+	if w.sched != nil {
+		w.sched.teardown()
+		w.sched = nil
+	}
+}
+
 func (w *World) Now() time.Duration {
 	if w.sched == nil {
 		return 0
